@@ -29,8 +29,9 @@ def run_decoded(c, decoded):
         v = native.from_decoded(kind, decoded[name], ctx)
         raw[name] = v
         return v
-    vals = native.NativeInputs(c, source).build_all()
-    return native.run_case(c, vals), raw
+    ni = native.NativeInputs(c, source)
+    vals = ni.build_all()
+    return native.run_case(c, vals, ni.log), raw
 
 
 def run_witness(c, witness):
@@ -83,8 +84,9 @@ def main(argv):
         def source(name, kind, gen=gen):
             cg = getattr(c, 'native_gens', {}).get(name)
             return cg(gen) if cg else gen.of(kind, hint='name' if 'name' in name else None)
-        vals = native.NativeInputs(c, source).build_all()
-        out = native.run_case(c, vals)
+        ni = native.NativeInputs(c, source)
+        vals = ni.build_all()
+        out = native.run_case(c, vals, ni.log)
     bad = [cn for cn, ok in out.get('clauses', {}).items() if ok is not True]
     print(json.dumps({'outcome': out.get('outcome'), 'result': out.get('result'), 'raised': out.get('raised'),
                       'clauses': out.get('clauses')}, default=str)[:2000])
